@@ -121,6 +121,44 @@ def mbsnrtowcs (mbr : Bytes → MbRes) (src : Bytes) (srclen : Nat) (dst : Optio
     let w := r.2.2.reverse
     ⟨r.1, r.2.1, w ++ d.drop w.length⟩
 
+/-! ### the conversion state `*ps`
+
+`mbrtowc` keeps the bytes of a character that was cut short in `*ps` (F43: `mbsnrtowcs` then stops and
+returns the count).  The next call on the same state continues that character: `mbrtowc(ps = pend)` on
+`s` behaves like the stateless `mbr` on `pend ++ s`, consuming `len - |pend|` bytes of `s`.  The state is
+modelled as the pending bytes (`[]` = initial state, `mbsinit`). -/
+
+/-- the loop of `mbsnrtowcs` started with `pend` in `*ps`; also yields the state afterwards -/
+def mbsLoopSt (mbr : Bytes → MbRes) (hasDst : Bool) (dstlen : Nat) :
+    (fuel : Nat) → (pend s : Bytes) → (off count : Nat) → (w : List Nat) →
+      (Option Nat × Option Nat × List Nat) × Bytes
+  | 0, pend, _, off, count, w => ((some count, some off, w), pend)
+  | f + 1, pend, s, off, count, w =>
+    if s = [] then ((some count, some off, w), pend)
+    else if hasDst ∧ count ≥ dstlen then ((some count, some off, w), pend)
+    else
+      match mbr (pend ++ s) with
+      | .char len wc =>
+        mbsLoopSt mbr hasDst dstlen f [] (s.drop (len - pend.length)) (off + (len - pend.length)) (count + 1)
+          (if hasDst then wc :: w else w)
+      | .nul => ((some count, none, if hasDst then 0 :: w else w), [])
+      | .invalid => ((none, some off, w), pend)
+      | .incomplete => ((some count, some (off + s.length), w), pend ++ s)
+
+/-- `mbsnrtowcs(dst, &src, srclen, dstlen, ps)` with `pend` in `*ps`; the second component is `*ps` afterwards
+    (`ps == NULL`: the function's own internal state, used the same way — POSIX) -/
+def mbsnrtowcsSt (mbr : Bytes → MbRes) (pend src : Bytes) (srclen : Nat) (dst : Option (List Nat)) : Mbs × Bytes :=
+  match dst with
+  | none =>
+    -- only counting: the conversion runs on a copy of the state, `*ps` is not advanced (as the
+    -- platform does; F44)
+    let r := mbsLoopSt mbr false 0 (srclen + 1) pend (src.take srclen) 0 0 []
+    (⟨r.1.1, some 0, []⟩, pend)
+  | some d =>
+    let r := mbsLoopSt mbr true d.length (srclen + 1) pend (src.take srclen) 0 0 []
+    let w := r.1.2.2.reverse
+    (⟨r.1.1, r.1.2.1, w ++ d.drop w.length⟩, r.2)
+
 /-- the unrepaired code assigned `*src_p` also when `dst == NULL`: the value it stored -/
 def mbsnrtowcsOldSrcp (mbr : Bytes → MbRes) (src : Bytes) (srclen : Nat) : Option Nat :=
   (mbsLoop mbr false 0 (srclen + 1) (src.take srclen) 0 0 []).2.1
